@@ -443,6 +443,6 @@ func c06Matrix(a lib.Args, res *lib.Result) error {
 
 func init() {
 	checks["c06"] = checkDef{"C06",
-		"matrix: upload mode (signed payload, UNSIGNED-PAYLOAD, signed / signed+trailer / unsigned+trailer aws-chunked) × target (PutObject, UploadPart) × key state (new, existing) × integrity field/corruption (Content-MD5, x-amz-content-sha256, x-amz-checksum-* header in five algorithms, chunk signature first/middle/final, trailer checksum, trailer signature, bit flip in chunk data, truncation after a chunk / after a size line / mid chunk / before the final chunk / inside the trailer, missing trailer, extra bytes, declared decoded length larger/smaller, chunk size larger than its data) plus the valid upload of each mode, on an unversioned and a versioned bucket. Oracle: corrupted ⇒ non-2xx and GET/ETag/version list (resp. the part's ListParts entry) byte-identical to before; valid ⇒ 200 and stored bytes = sent bytes. All cases non-trivial; distinct by case description.",
-		[]checkFn{c06Matrix}}
+		"matrix: upload mode (signed payload, UNSIGNED-PAYLOAD, signed / signed+trailer / unsigned+trailer aws-chunked) × target (PutObject, UploadPart) × key state (new, existing) × integrity field/corruption (Content-MD5, x-amz-content-sha256, x-amz-checksum-* header in five algorithms, chunk signature first/middle/final, trailer checksum, trailer signature, bit flip in chunk data, truncation after a chunk / after a size line / mid chunk / before the final chunk / inside the trailer, missing trailer, extra bytes, declared decoded length larger/smaller, chunk size larger than its data) plus the valid upload of each mode, on an unversioned and a versioned bucket; refused uploads onto keys of a bucket with versioning Suspended (null version archived / null version current); valid uploads of every mode sent concurrently by 8 clients with chunks larger than the copy buffer. Oracle: corrupted ⇒ non-2xx and GET/ETag/version list (resp. the part's ListParts entry) byte-identical to before; valid ⇒ 200 and stored bytes = sent bytes. All cases non-trivial; distinct by case description.",
+		[]checkFn{c06Matrix, c06Suspended, c06Concurrent}}
 }
